@@ -888,6 +888,14 @@ where
             _ => return,
         };
 
+        if !self.has_enough_capacity(new_weight, counters)
+            && (self.has_expiry() || self.has_valid_after())
+        {
+            // Reclaim the room held by expired or invalidated entries before judging a
+            // candidate that does not fit.
+            self.evict_expired(deqs, batch_size::EVICTION_BATCH_SIZE, counters);
+        }
+
         if self.has_enough_capacity(new_weight, counters) {
             // There are enough room in the cache (or the cache is unbounded).
             // Add the candidate to the deques.
